@@ -543,6 +543,11 @@ func (g *G) floatExpr(d int) hs.Expr {
 	if e, ok := g.generic(hs.TFloat, d); ok {
 		return e
 	}
+	if !g.c.Wild && !g.c.SmallNums && !g.c.Pure && !g.c.off("float-pow") && g.chance("floatNaN", 3) {
+		// not-a-number at run time (there is no literal for it): comparisons with it are all false but `!=`
+		g.feat("float-nan")
+		return hs.Paren{X: hs.Infix{Op: "**", L: hs.Paren{X: hs.Prefix{Op: "-", X: hs.FloatLit{V: 1}, T: hs.TFloat}}, R: hs.FloatLit{V: 0.5}, T: hs.TFloat}}
+	}
 	switch g.pick("floatForm", 8) {
 	case 0, 1, 2:
 		ops := []string{"+", "-", "*", "/"}
